@@ -306,6 +306,16 @@ func (l *VerifLRU) Set(key uint64, id uint64, dirty bool) bool {
 	return l.c.set(key, n)
 }
 
+// Restore stores the node that is resident under key again - the same node,
+// not a copy - as flushPages does through update for every page it writes.
+func (l *VerifLRU) Restore(key uint64) bool {
+	e, ok := l.c.cache[key]
+	if !ok {
+		return false
+	}
+	return l.c.set(key, e.Value.(*cacheEntry).val)
+}
+
 // Get returns the id of the node stored under key.
 func (l *VerifLRU) Get(key uint64) (id uint64, dirty bool, ok bool) {
 	n, ok := l.c.get(key)
